@@ -10,7 +10,7 @@ BASE = dict(
     DenomIds=S(), TokenIds=S(), DNames=S(), TDescs=S(['']),
     Amts=S(), GovAmts=S(), SendDenoms=S(), VestEnds=S(),
     Fees=S([0]), Kinds=S(), SignerSets='exact', ExecOn=False,
-    MaxDeliver=5, MaxTxLen=1, Fees2=S([0]), Mints=S([0]), NextKinds=S(['BeginBlock']), FailKeep=1, SimSample=0, BlockKeep=1,
+    MaxDeliver=5, MaxTxLen=1, Fees2=S([0]), Tips=S(['none']), Mints=S([0]), NextKinds=S(['BeginBlock']), FailKeep=1, SimSample=0, BlockKeep=1,
     ViewTopics=S(), ViewDids=S(), ViewDenoms=S(), ViewTokens=S(),
 )
 
@@ -117,7 +117,7 @@ def preset(pid, tier):
                DenomIds=S(['n1']), TokenIds=S(['i1']), DNames=S(['x']), ViewDenoms=S(['n1']), ViewTokens=S(['i1']),
                Kinds=kinds, Fees=S([0, 1]), Fees2=S([0, 3, 2000]), MaxTxLen=2, MaxDeliver=2, MaxHeight=2, NextKinds=S(['BeginBlock', 'Redeliver']))
         big = copy.deepcopy(c)
-        big.update(Accts=S(['a1', 'a2', 'a3']), FeePayers=S(['none', 'a1', 'a3']), MaxDeliver=20, MaxHeight=5, FailKeep=2, Fees2=S([0, 3]),
+        big.update(Accts=S(['a1', 'a2', 'a3']), FeePayers=S(['none', 'a1', 'a3']), MaxDeliver=20, MaxHeight=5, FailKeep=2, Fees2=S([0, 3]), Tips=S(['none', 'a2']), SimSample=20,
                    Kinds=kinds | S(['aol.DeleteWriter']), DocNames=S(['A1', 'A2', 'R1']), Keys=S(['k1', 'k2']))
         # rollback probes over a one-account mixed alphabet: [m1, m2, always-failing] must leave nothing behind, in the stores or in process memory
         pr = mk(Topics=S(['t1']), ViewTopics=S(['t1']), RecVals=S(['v1']), Accts=S(['a1']), Dids=S(['d1']), ViewDids=S(['d1']), Keys=S(['k1']), VmNames=S(['v1']), DocNames=S(['A1']),
@@ -187,9 +187,9 @@ def preset(pid, tier):
         # The judge (Trace.tla) keeps the intended behaviour: on a correct tree every such message is a predicted stateless rejection.
         hostile = pn(Accts=S(['a1', 'a2']), DenomIds=S(['n1', 'nz']), TokenIds=S(['iz', 'iy']), ViewDenoms=S(['n1', 'nz']), ViewTokens=S(['iz', 'iy']),
                      Kinds=S(['pnft.CreateDenom', 'pnft.Mint', 'pnft.Transfer', 'pnft.Burn']), MaxDeliver=20, MaxHeight=4, FailKeep=20, Deviations=S(['nulids']))
-        # dense traffic over aliasing-prone identifier pairs: a prefix pair ("a", "ab") and a case pair ("a", "A"), one token id, two accounts
-        pair1 = pn(Accts=S(['a1', 'a2']), DenomIds=S(['n1', 'n2']), TokenIds=S(['i1']), ViewDenoms=S(['n1', 'n2']), ViewTokens=S(['i1']), MaxDeliver=30, MaxHeight=6,
-                   NextKinds=ALL_NEXT_N, FailKeep=30)
+        # dense traffic over aliasing-prone identifier pairs: a prefix pair ("a", "ab") and a case pair ("a", "A"), two token ids (per-denom vs per-token rights), two accounts
+        pair1 = pn(Accts=S(['a1', 'a2']), DenomIds=S(['n1', 'n2']), TokenIds=S(['i1', 'i2']), ViewDenoms=S(['n1', 'n2']), ViewTokens=S(['i1', 'i2']), MaxDeliver=40, MaxHeight=6,
+                   NextKinds=ALL_NEXT_N, FailKeep=5)       # FailKeep low: attacks are transactions the specification REJECTS; they must not be filtered away
         pair2 = pn(Accts=S(['a1', 'a2']), DenomIds=S(['n1', 'nc']), TokenIds=S(['i1', 'ic']), ViewDenoms=S(['n1', 'nc']), ViewTokens=S(['i1', 'ic']), MaxDeliver=30, MaxHeight=6,
                    NextKinds=ALL_NEXT, FailKeep=30)
         # 150 bulk denoms and 150 bulk tokens in one denom, all owned by a4: listings beyond any default page size; a4 and the bulk denom are in the alphabet
@@ -198,7 +198,11 @@ def preset(pid, tier):
         # rollback probes over a small PNFT alphabet: [m1, m2, always-failing] before every alphabet transaction - a hand-over or an update that was rolled back
         # must leave nothing behind (in the stores or in process memory) that changes who may act next
         probec = pn(Accts=S(['a1', 'a2']), DenomIds=S(['n1']), TokenIds=S(['i1']), ViewDenoms=S(['n1']), ViewTokens=S(['i1']), MaxDeliver=2 if q else 3, MaxHeight=2)
-        return dict(mc=mcc, props=props, invs=invs, tour=[dict(constants=tourc), dict(constants=probec, probes=True, fanout=6 if q else 0)],
+        # a deeper tour over a minimal token alphabet (one denom, two tokens, two accounts; create / mint / transfer / burn only): every state within
+        # four deliveries - e.g. "each account holds one token of the denom" - meets every transfer and burn by everybody
+        deepc = pn(Accts=S(['a1', 'a2']), DenomIds=S(['n1']), TokenIds=S(['i1', 'i2']), ViewDenoms=S(['n1']), ViewTokens=S(['i1', 'i2']),
+                   Kinds=S(['pnft.CreateDenom', 'pnft.Mint', 'pnft.Transfer', 'pnft.Burn']), MaxDeliver=4 if q else 5, MaxHeight=2)
+        return dict(mc=mcc, props=props, invs=invs, tour=[dict(constants=tourc), dict(constants=probec, probes=True, fanout=6 if q else 0), dict(constants=deepc)],
                     sims=[sim(simc, 150 if q else 3000, 60), sim(hostile, 40 if q else 600, 30), sim(pair1, 50 if q else 800, 40), sim(pair2, 30 if q else 500, 40),
                           # account a2 spells its address in upper case (a legal bech32 spelling of the same address) in every message field
                           sim(pair1, 30 if q else 500, 40, genesis=dict(upper=['a2'])),
